@@ -7,6 +7,7 @@ import checks_sexp
 import checks_types
 import checks_problem
 import checks_hist
+import checks_domain
 
 CHECKS = {
     "C02": (lambda ctx: checks_core.run_core(ctx, "pre"), "model_checking"),
@@ -14,6 +15,7 @@ CHECKS = {
     "C11": (checks_sexp.run, "model_checking"),
     "C06": (checks_types.run, "model_checking"),
     "C05": (checks_problem.run, "model_checking"),
+    "C01": (checks_domain.run_c01, "model_checking"),
     "C04": (checks_hist.run_c04, "model_checking"),
     "C07": (checks_hist.run_c07, "model_checking"),
     "C10": (checks_hist.run_c10, "model_checking"),
@@ -97,6 +99,15 @@ META["C14"] = {
                  "against the specification's state equality",
     "text": "States reached by parsing, successors, copies and re-parsed trajectories are compared with ==, copied and "
             "snapshotted; TLC judges every answer with StEq on the stored abstract values and every snapshot for independence."}
+META["C01"] = {
+    "engine": "M+G+V", "design_ref": "DESIGN.md section 6 (C01)",
+    "note": "Faithfulness of bodies is observed through behaviour (applicability / successor) over a small universe, never "
+            "through the library's internal formula objects. Trusted base: independent reader, layout writer, projection.",
+    "technique": "TLC reads the same token tree as the library (Grammar!DomainOfTree) and judges vocabulary and behaviour; "
+                 "MC_Grammar model-checks render/read round trip and fragment classification; lenient forms are generated by the spec",
+    "text": "The PDDL grammar lives in the specification: TLC reads each domain text (as a token tree from an independent "
+            "reader) into an AST, compares the library's vocabulary with it and judges the library's applicability / successor "
+            "answers against the AST's semantics; forms outside the fragment must be faithful or raise."}
 NOT_YET = {}
 
 
